@@ -74,6 +74,14 @@ def h_qspp(c):
         poly = numpy.array(poly, dtype=complex)
     elif c.get("as_list"):
         poly = list(poly)
+    elif c.get("container") == "intlist":          # Python ints (integer-valued data only)
+        poly = [int(x) for x in poly]
+    elif c.get("container") == "intarray":
+        poly = numpy.array([int(x) for x in poly], dtype=int)
+    elif c.get("container") == "floatlist":
+        poly = [float(x) for x in poly]
+    elif c.get("container") == "polynomial":
+        poly = numpy.polynomial.Polynomial(numpy.array(poly, dtype=float))
     else:
         poly = numpy.array(poly, dtype=float)
     kw = {}
@@ -83,12 +91,13 @@ def h_qspp(c):
     for k in ("signal_operator", "measurement", "method"):
         if k in c and c[k] is not None:
             kw[k] = c[k]
-    before = numpy.array(poly, copy=True)
+    _co = lambda q: numpy.array(q.coef if hasattr(q, "coef") else q, copy=True)
+    before = _co(poly)
     with randint_bits(c.get("bits")) as stub, perturb_angseq(dec(c["perturb"]) if c.get("perturb") else None):
         phis = QuantumSignalProcessingPhases(poly, **kw)
     out = {"phis": enc(numpy.asarray(phis, dtype=float)) if not isinstance(phis, dict) else "dict",
            "len": len(phis), "randint_sizes": stub.calls if stub else None,
-           "arg_unchanged": bool(numpy.array_equal(before, numpy.array(poly), equal_nan=True)),
+           "arg_unchanged": bool(numpy.array_equal(before, _co(poly), equal_nan=True)),
            "finite": bool(numpy.all(numpy.isfinite(numpy.asarray(phis, dtype=float))))}
     return out
 
